@@ -14,14 +14,26 @@ use statime::time::{Duration, Interval, Time};
 const NS: u128 = 1 << 32; // bits per nanosecond
 const SEC: u128 = 1_000_000_000 * NS;
 
+/// thorough tier: denser lattices
+static DENSE: std::sync::atomic::AtomicBool = std::sync::atomic::AtomicBool::new(false);
+fn dense() -> bool {
+    DENSE.load(std::sync::atomic::Ordering::Relaxed)
+}
+
 pub fn time_lattice() -> Vec<u128> {
-    let secs: [u128; 5] = [0, 1, (1 << 32) - 1, 1 << 32, (1 << 48) - 1];
-    let ns: [u128; 3] = [0, 1, 999_999_999];
-    let frac: [u128; 5] = [0, 1, 1 << 16, (1 << 16) + 1, (1 << 32) - 1];
+    let (secs, ns, frac): (Vec<u128>, Vec<u128>, Vec<u128>) = if dense() {
+        (
+            vec![0, 1, 2, (1 << 31) - 1, 1 << 31, (1 << 32) - 1, 1 << 32, (1 << 32) + 1, 1 << 47, (1 << 48) - 2, (1 << 48) - 1],
+            vec![0, 1, 2, 499_999_999, 500_000_000, 999_999_998, 999_999_999],
+            vec![0, 1, 2, 1 << 15, (1 << 16) - 1, 1 << 16, (1 << 16) + 1, 1 << 31, (1 << 32) - 2, (1 << 32) - 1],
+        )
+    } else {
+        (vec![0, 1, (1 << 32) - 1, 1 << 32, (1 << 48) - 1], vec![0, 1, 999_999_999], vec![0, 1, 1 << 16, (1 << 16) + 1, (1 << 32) - 1])
+    };
     let mut v = vec![];
-    for s in secs {
-        for n in ns {
-            for f in frac {
+    for s in &secs {
+        for n in &ns {
+            for f in &frac {
                 v.push(s * SEC + n * NS + f);
             }
         }
@@ -31,7 +43,7 @@ pub fn time_lattice() -> Vec<u128> {
 
 pub fn dur_lattice() -> Vec<i128> {
     let ns = NS as i128;
-    let mags: Vec<i128> = vec![
+    let mut mags: Vec<i128> = vec![
         0,
         1,
         1 << 16,
@@ -46,6 +58,16 @@ pub fn dur_lattice() -> Vec<i128> {
         ((1i128 << 63) - 1) * ns,
         ((1i128 << 63) - 1) * ns + (ns - 1),
     ];
+    if dense() {
+        // every power of two of 2^-32 ns up to the top, with its neighbours
+        for k in 0..95u32 {
+            let p = 1i128 << k;
+            mags.extend([p - 1, p, p + 1]);
+        }
+        mags.retain(|m| *m >= 0 && *m <= ((1i128 << 63) - 1) * ns + (ns - 1));
+        mags.sort();
+        mags.dedup();
+    }
     let mut v = vec![];
     for m in mags {
         v.push(m);
@@ -246,6 +268,16 @@ fn interval_ops(c: &mut Ctx) {
         pats.push(((1u64 << k) - 1) as i64);
         pats.push(((1u64 << k) as i64).wrapping_neg());
     }
+    if dense() {
+        // all patterns with two bits set, and their complements
+        for a in 0..64u32 {
+            for b in (a + 1)..64 {
+                let p = ((1u64 << a) | (1u64 << b)) as i64;
+                pats.push(p);
+                pats.push(!p);
+            }
+        }
+    }
     pats.sort();
     pats.dedup();
     let base = with_node::<RecFilter, _>(
@@ -399,6 +431,7 @@ fn wire_ops(c: &mut Ctx) {
 
 pub fn run(tier: Tier) -> i32 {
     let mut rep = Reporter::new("C16", tier, "exploration");
+    DENSE.store(tier == Tier::Thorough, std::sync::atomic::Ordering::Relaxed);
     let mut c = Ctx { sat_side: None, viol: vec![], evals: 0, representable: 0 };
     pure_ops(&mut c);
     interval_ops(&mut c);
@@ -407,11 +440,11 @@ pub fn run(tier: Tier) -> i32 {
     rep.violations(c.viol.drain(..));
     rep.cover("evaluations", json!(c.evals));
     rep.cover("distinct_nontrivial", json!(c.representable));
-    rep.cover("rule", json!("full products of the boundary lattices (75 times x 25 durations; all 256 log intervals; 190 TimeInterval bit patterns) through every public Time/Duration/Interval operation, TimeInterval via PortDS+serde, Time->wire via a real master port's Follow_Up; non-trivial = cases whose exact result is representable (must be bit-exact); the others must not return a value"));
+    rep.cover("rule", json!("full products of the boundary lattices (quick: 75 times x 25 durations, 190 TimeInterval bit patterns; thorough: 770 times x ~570 durations - every power of two of 2^-32 ns with its neighbours, both signs - and ~4200 TimeInterval patterns incl. all two-bit patterns and their complements; all 256 log intervals) through every public Time/Duration/Interval operation, TimeInterval via PortDS+serde, Time->wire via a real master port's Follow_Up; non-trivial = cases whose exact result is representable (must be bit-exact); the others must not return a value"));
     rep.cover("exhaustive", json!(true));
     rep.cover("samples", json!([
         {"op": "Time+Duration", "args": [time_lattice()[7].to_string(), dur_lattice()[5].to_string()]},
-        {"op": "TimeInterval::from(Duration)", "args": [dur_lattice()[20].to_string()]},
+        {"op": "TimeInterval::from(Duration)", "args": [dur_lattice()[12].to_string()]},
     ]));
     rep.assume("reference = checked i128 arithmetic on raw 2^-32 ns bits");
     rep.merge_unchecked_flavour();
